@@ -841,6 +841,9 @@ func ruleReject(c *Ctx) {
 		{"op", "Meter.validate", "zero numerator", structFval(map[string]fval{"Rat.Num": u(0), "Rat.Denom": u(4)})},
 		{"op", "Meter.validate", "zero denominator", structFval(map[string]fval{"Rat.Num": u(4), "Rat.Denom": u(0)})},
 		{"op", "BPM.validate", "tempo 0", u(0)},
+		// dictionary entries without a name are refused whatever else they carry
+		{"chord", "Attribute.validate", "unnamed attribute with a degree", structFval(map[string]fval{"Name": {k: constant.MakeString("")}, "Degree.Value": u(4), "Degree.Name": {k: constant.MakeInt64(1)}})},
+		{"chord", "Chord.validate", "unnamed chord with attributes", structFval(map[string]fval{"Name": {k: constant.MakeString("")}, "Extends": {k: constant.MakeString("MajorTriad")}, "Meta.Display": {k: constant.MakeString("x")}})},
 	}
 	for _, cs := range cases {
 		fn := c.fn(cs.pkg, cs.fn)
